@@ -113,6 +113,14 @@ func Spawn(extraEnv ...string) ([]byte, error) {
 		cmd.Env = append(os.Environ(), fmt.Sprintf("%s=%d", baseEnv, Base().UnixMilli()))
 		cmd.Env = append(cmd.Env, extraEnv...)
 		out, err = cmd.CombinedOutput()
+		if cmd.Process != nil {
+			// the worker's server may still have been writing while the worker removed its directory: the parent
+			// removes whatever is left once the worker is dead
+			left, _ := filepath.Glob(fmt.Sprintf("/dev/shm/verif-e2e-%d-*", cmd.Process.Pid))
+			for _, d := range left {
+				_ = os.RemoveAll(d)
+			}
+		}
 		var ee *exec.ExitError
 		if err != nil && errors.As(err, &ee) && ee.ExitCode() == ExitHarness {
 			continue
@@ -162,7 +170,14 @@ func Start(flags ...string) *Server {
 }
 
 // Remove deletes the data directory (call right before os.Exit; the server is not closed gracefully).
-func (s *Server) Remove() { _ = os.RemoveAll(s.Dir) }
+func (s *Server) Remove() {
+	for i := 0; i < 5; i++ {
+		_ = os.RemoveAll(s.Dir)
+		if _, err := os.Stat(s.Dir); os.IsNotExist(err) {
+			return
+		}
+	}
+}
 
 func ctx() (context.Context, context.CancelFunc) {
 	return context.WithTimeout(context.Background(), 60*time.Second)
